@@ -74,6 +74,9 @@ FamWide ==
          << [SimpleOut(1) EXCEPT !.wit.sp = [f |-> "o1.sp", len |-> IF l = 65536 THEN 8226 ELSE l, a |-> "sp"]] >>) : l \in {252, 253, 65536} } \cup
   { MkTx(<< [SimpleIn(1) EXCEPT !.wit.pw = [k \in 1..n |-> B("", 0)]] >>, << SimpleOut(1) >>) : n \in {252, 253} } \cup
   { MkTx(<< [SimpleIn(1) EXCEPT !.wit.sw = << B("i1.sw1", l) >>, !.wit.pw = << B("i1.pw1", l) >>] >>, << SimpleOut(1) >>) : l \in {252, 253, 65535, 65536} }
+\* lock times on both sides of the height / time threshold (500 000 000 = 0x1dcd6500); the harness builds them with the
+\* constructors of their kind (from_height below the threshold, from_time from it on), not through from_consensus
+FamLock == { [MkTx(<< SimpleIn(1) >>, << SimpleOut(1) >>) EXCEPT !.lock = l] : l \in {"0", "1dcd64ff", "1dcd6500", "1dcd6501", "ffffffff"} }
 \* non-canonical in-memory shapes whose encodings the decoder must refuse: issuance flag with a null issuance
 FamNullIss ==
   { MkTx(<< MkIn(1, v, p, <<na, "null", "null">>, 0, {}) >>, << SimpleOut(1) >>) : v \in {"zero", "small"}, p \in BOOLEAN, na \in {"z", "sc"} }
